@@ -133,11 +133,13 @@ extern "C" void __wrap_free(void *p) {
   if (g_sim.alloc_active && g_sched_enabled) sched_edge_hook();
 }
 
-// overwrite the stack region the next API call will use, so "uninitialised" is a seeded value
+// overwrite the stack region the next API call will use, so "uninitialised" is a seeded value. The fill is one byte value per call
+// (a function of mode and seed only): a pattern that varied with the position would make what an uninitialised read sees depend on
+// the caller's stack depth and on ASLR, i.e. differ between the original run, its in-process repeat and a fresh-process replay.
 __attribute__((noinline)) void stack_scribble(int mode, uint64_t seed) {
   volatile unsigned char buf[192 * 1024];
-  unsigned char v = mode == 0 ? 0x00 : mode == 1 ? 0xFF : mode == 2 ? 0xAA : mode == 3 ? 0x7f : (unsigned char)(seed * 131 + 7);
-  for (size_t i = 0; i < sizeof buf; i += 1) buf[i] = (unsigned char)(v + (mode >= 4 ? (unsigned char)(i * 31 + (seed >> (i & 31))) : 0));
+  uint64_t x = seed; unsigned char v = mode == 0 ? 0x00 : mode == 1 ? 0xFF : mode == 2 ? 0xAA : mode == 3 ? 0x7f : (unsigned char)(splitmix64(x) >> 24);
+  for (size_t i = 0; i < sizeof buf; i += 1) buf[i] = v;
   __asm__ volatile("" ::"r"(buf) : "memory");
 }
 
